@@ -38,7 +38,7 @@ def run(ctx):
 
     # V: recorded multi-block histories of two twins validated by the trace specification
     tp = os.path.join(ctx.scratch, "trace.ndjson")
-    s, _ = ctx.drive(drv, ["-mode", "record", "-trace", tp, "-n", ctx.pick(32, 400), "-steps", ctx.pick(120, 250),
+    s, _ = ctx.drive(drv, ["-mode", "record", "-trace", tp, "-n", ctx.pick(32, 200), "-steps", ctx.pick(120, 200),
                            "-na", 3, "-ns", 2], name="c14-record", timeout=ctx.pick(1800, 7200))
     ok, consumed, total, r = ctx.validate("state/StateCommitTrace", tp, ntraces=s["traces"], timeout=ctx.pick(1800, 7200))
     if not ok:
